@@ -6,7 +6,7 @@ reader and CSS reader written here, and the same checks on the re-parse of the H
 serialisations.  Correspondence: the same cases through `gdrv` (Lean model of the sanitizer,
 stripentities, is_safe_uri, sanitize_css) and the real functions.
 """
-import json, random, re, unicodedata
+import hashlib, json, random, re, unicodedata
 from harness import proto, gen_soup
 from harness.framework import Result, pmap
 from harness.proto import Atom, B, N
@@ -677,7 +677,43 @@ def nontrivial_key(case, real):
         if '&' not in case['text']:
             return None
     txt = json.dumps(case, sort_keys=True)
-    return txt if len(txt) < 600 else str(hash(txt))
+    return txt if len(txt) < 600 else hashlib.sha1(txt.encode('utf-8', 'surrogatepass')).hexdigest()
+
+
+def count_branches(real, res):
+    """which parts of the filter a case reached (measured on the real run)"""
+    r = real['r']
+    kept = {}
+    for e in real['out']:
+        if e[0] == 'S':
+            for a, v in e[2]:
+                kept[qtext(a)] = kept.get(qtext(a), 0) + 1
+    open_tags = []
+    for e in real['inp']:
+        if e[0] == 'S':
+            tag = qtext(e[1])
+            if tag not in r['safe_tags'] and tag in open_tags:
+                res.count('branch:unsafe-element-nested-in-itself')
+            open_tags.append(tag)
+            for a, v in e[2]:
+                an = qtext(a)
+                if an in r['safe_attrs'] and an in r['uri_attrs']:
+                    res.count('branch:uri-attribute-seen')
+                    if ':' in v:
+                        res.count('branch:uri-attribute-with-colon')
+                if an in r['safe_attrs'] and an == 'style':
+                    res.count('branch:style-attribute-seen')
+                    if '\\' in v:
+                        res.count('branch:style-with-escape')
+                    if '/*' in v:
+                        res.count('branch:style-with-comment')
+        elif e[0] == 'E' and open_tags:
+            open_tags.pop()
+    for an, n in kept.items():
+        if an in r['uri_attrs']:
+            res.count('branch:uri-attribute-kept', n)
+        if an == 'style':
+            res.count('branch:style-attribute-kept', n)
 
 
 def shard(arg):
@@ -703,6 +739,7 @@ def shard(arg):
             res.count('elements-dropped' if outs < ins else 'elements-all-kept')
             res.count('events-in', len(real['inp']))
             res.count('events-out', len(real['out']))
+            count_branches(real, res)
     compare(cases, reals, res)
     res.samples = cases[:2]
     return res
